@@ -112,6 +112,10 @@ def _create_files(  # noqa: C901, PLR0912, PLR0913
             links = storage_obj.odb.cache_types
 
         failed_paths: set[str] = set()
+        if links and any(link in ("hardlink", "symlink") for link in links):
+            # these link types leave a file that is already at the destination
+            # alone (and nothing is reported): it is not the entry's content either
+            failed_paths.update(dest for dest in dest_paths if fs.exists(dest))
         on_error = None
         if onerror is not None:
 
